@@ -333,19 +333,19 @@ func frame(t byte, length int64, body []byte) []byte {
 }
 
 func runCodec(cfg *runCfg) error {
-	g := newGen(cfg.seed)
+	g := newGen(cfg.Seed)
 	cf := &caseFile{
-		imports: "From FRP Require Import Corr.C17.\n",
-		typ:     "case",
-		tail: "Definition M := Eval vm_compute in mismatches check_case cases.\nPrint M.\n" +
+		Imports: "From FRP Require Import Corr.C17.\n",
+		Typ:     "case",
+		Tail: "Definition M := Eval vm_compute in mismatches check_case cases.\nPrint M.\n" +
 			"Definition NMSG := Eval vm_compute in count_if is_msg cases.\nPrint NMSG.\n",
 	}
 	clsCount := map[string]int{}
 	typeCount := map[string]int{}
 	distinct := map[string]bool{}
 	var samples []any
-	nValid := cfg.n / 2
-	nMal := cfg.n - nValid
+	nValid := cfg.N / 2
+	nMal := cfg.N - nValid
 	implFail := []string{}
 
 	// (i) valid messages of all registered types through the real WriteMsg / ReadMsg
@@ -366,7 +366,7 @@ func runCodec(cfg *runCfg) error {
 		if len(w)-9 > 10240 {
 			// too large for the declared bound: both sides must reject; goes to the frame stream
 			cls, consumed, typ, _ := readClass(w)
-			cf.cases = append(cf.cases, fmt.Sprintf("CFrame %s %d %d %s", coqHx(w), cls, consumed, coqZ(int64(typ))))
+			cf.Cases = append(cf.Cases, fmt.Sprintf("CFrame %s %d %d %s", coqHx(w), cls, consumed, coqZ(int64(typ))))
 			clsCount[fmt.Sprintf("oversize-valid cls=%d", cls)]++
 			continue
 		}
@@ -385,7 +385,7 @@ func runCodec(cfg *runCfg) error {
 			continue
 		}
 		c := fmt.Sprintf("CMsg %s %s %s %s %s", coqStr(name), gvFields(pv.Elem()), coqHx(w), obj[5:], coqBool(backEqual))
-		cf.cases = append(cf.cases, c)
+		cf.Cases = append(cf.Cases, c)
 		typeCount[name]++
 		if len(w) > 9+2 { // body other than "{}"
 			distinct[c] = true
@@ -399,7 +399,7 @@ func runCodec(cfg *runCfg) error {
 	validBody := []byte(`{"version":"1","run_id":"abc"}`)
 	addFrame := func(kind string, in []byte) {
 		cls, consumed, typ, _ := readClass(in)
-		cf.cases = append(cf.cases, fmt.Sprintf("CFrame %s %d %d %s", coqHx(in), cls, consumed, coqZ(int64(typ))))
+		cf.Cases = append(cf.Cases, fmt.Sprintf("CFrame %s %d %d %s", coqHx(in), cls, consumed, coqZ(int64(typ))))
 		clsCount[fmt.Sprintf("%s cls=%d", kind, cls)]++
 		key := fmt.Sprintf("F%x", in)
 		if len(key) > 200 {
@@ -451,12 +451,12 @@ func runCodec(cfg *runCfg) error {
 
 	// (iii) pinned encodings: fixed messages must encode to the pinned bytes
 	goldenMismatch := []string{}
-	if cfg.extra != "" {
+	if cfg.Extra != "" {
 		lines := goldenVectors()
-		want, err := os.ReadFile(cfg.extra)
+		want, err := os.ReadFile(cfg.Extra)
 		if err != nil {
 			if os.Getenv("VERIF_WRITE_GOLDEN") == "1" {
-				_ = os.WriteFile(cfg.extra, []byte(strings.Join(lines, "\n")+"\n"), 0o644)
+				_ = os.WriteFile(cfg.Extra, []byte(strings.Join(lines, "\n")+"\n"), 0o644)
 			} else {
 				return err
 			}
@@ -475,20 +475,20 @@ func runCodec(cfg *runCfg) error {
 					goldenMismatch = append(goldenMismatch, p[0])
 				}
 			}
-			cfg.st["golden_vectors"] = len(wm)
+			cfg.St["golden_vectors"] = len(wm)
 		}
 	}
 
-	if err := cf.write(cfg.out); err != nil {
+	if err := cf.Write(cfg.Out); err != nil {
 		return err
 	}
-	cfg.st["cases"] = len(cf.cases)
-	cfg.st["distinct_nontrivial"] = len(distinct)
-	cfg.st["class_distribution"] = clsCount
-	cfg.st["message_types"] = typeCount
-	cfg.st["samples"] = samples
-	cfg.st["impl_failures"] = implFail
-	cfg.st["golden_mismatch"] = goldenMismatch
+	cfg.St["cases"] = len(cf.Cases)
+	cfg.St["distinct_nontrivial"] = len(distinct)
+	cfg.St["class_distribution"] = clsCount
+	cfg.St["message_types"] = typeCount
+	cfg.St["samples"] = samples
+	cfg.St["impl_failures"] = implFail
+	cfg.St["golden_mismatch"] = goldenMismatch
 	return nil
 }
 
